@@ -799,6 +799,61 @@ fn run_op(w: &mut World, op: &Value) -> Value {
             let vals: Vec<u64> = op["values"].as_array().unwrap().iter().map(|x| x.as_u64().unwrap()).collect();
             json!(ic_btc_canister::verif_percentiles(vals))
         }
+        "headers_across_boundary" => {
+            use ic_btc_canister::runtime::verif_hooks as vh;
+            use bitcoin::consensus::Decodable;
+            ic_btc_canister::init(InitConfig { stability_threshold: Some(1), network: Some(Network::Regtest), api_access: Some(Flag::Enabled),
+                disable_api_if_not_fully_synced: Some(Flag::Disabled), ..Default::default() });
+            vh::set_performance_counter_step(0);
+            let mut prev = with_state(|s| *unstable_blocks::get_main_chain(&s.unstable_blocks).tip().block().header());
+            let mut chain_hashes = vec![prev.block_hash()];
+            let mut push_one = |prev: &mut Header, salt: u32, chain_hashes: &mut Vec<bitcoin::BlockHash>| {
+                let cb = TransactionBuilder::coinbase().with_lock_time(salt).with_output(&address(1), 10).with_output(&address(2), 20).with_output(&address(3), 30).build();
+                let mut blk = Block::new(BlockBuilder::with_prev_header(*prev).with_transaction(cb).build());
+                blk.mock_difficulty = Some(1);
+                *prev = *blk.header();
+                chain_hashes.push(prev.block_hash());
+                with_state_mut(|s| unstable_blocks::push(&mut s.unstable_blocks, &s.utxos, blk).unwrap());
+            };
+            // three blocks, stabilise what can be stabilised
+            for i in 0..3 { push_one(&mut prev, 100 + i, &mut chain_hashes); }
+            let _ = with_state_mut(state::ingest_stable_blocks_into_utxoset);
+            for i in 0..op["unstable"].as_u64().unwrap_or(2) { push_one(&mut prev, 200 + i as u32, &mut chain_hashes); }
+            let mut paused = false;
+            if op["pause"].as_bool().unwrap_or(false) {
+                vh::set_performance_counter(0);
+                vh::set_performance_counter_step(1_000_000_000 / 2 + 1);
+                let r = with_state_mut(state::ingest_stable_blocks_into_utxoset);
+                paused = matches!(r, ctypes::Slicing::Paused(()));
+                vh::set_performance_counter_step(0);
+            } else {
+                let _ = with_state_mut(state::ingest_stable_blocks_into_utxoset);
+            }
+            let tip = ic_btc_canister::get_blockchain_info().height;
+            let mut queries = vec![];
+            for s_ in 0..=tip {
+                for e_ in s_..=tip {
+                    let r = ic_btc_canister::get_block_headers(GetBlockHeadersRequest { start_height: s_, end_height: Some(e_), network: NetworkInRequest::Regtest });
+                    let mut problem = Value::Null;
+                    match r {
+                        Err(e) => problem = json!(format!("{:?}", e)),
+                        Ok(resp) => {
+                            let hs: Vec<Header> = resp.block_headers.iter().filter_map(|b| Header::consensus_decode(&mut &b[..]).ok()).collect();
+                            if hs.len() as u32 != e_ - s_ + 1 {
+                                problem = json!(format!("{} headers for heights {}..={}", hs.len(), s_, e_));
+                            } else {
+                                for (k, h) in hs.iter().enumerate() {
+                                    if h.block_hash() != chain_hashes[(s_ as usize) + k] { problem = json!(format!("header {} of range {}..={} is not the best-chain block at its height", k, s_, e_)); }
+                                    if k > 0 && h.prev_blockhash != hs[k - 1].block_hash() { problem = json!(format!("header {} of range {}..={} is not linked to its predecessor", k, s_, e_)); }
+                                }
+                            }
+                        }
+                    }
+                    queries.push(json!({"start": s_, "end": e_, "problem": problem}));
+                }
+            }
+            json!({"paused": paused, "stable_height": with_state(|s| s.stable_height()), "tip": tip, "queries": queries})
+        }
         "tree" => {
             let hashes = with_state(|s| unstable_blocks::get_block_hashes(&s.unstable_blocks));
             json!({"blocks": hashes.iter().map(|h| block_id_of(w, &h.to_vec())).collect::<Vec<_>>(),
